@@ -129,6 +129,10 @@ fn main() {
         selftest::write_fuzz_seeds(&dir);
         return;
     }
+    if id == "secondproduct" {
+        selftest::second_product_report();
+        return;
+    }
     if id == "hardtable" {
         selftest::hard_table_report();
         return;
